@@ -288,20 +288,37 @@ def oracle(log):
     return fails, {"steps": n_checked, "tracks": tracks_done, "events": events_done}
 
 
-def cleared_secondary_finding(log, problem, kw):
-    """CutoffView::apply is evaluated on cleared secondaries; if the problem has post-interaction
-    cuts but lacks one of gamma/electron/positron the comparison `invalid == ids.X` is true and
-    energy(invalid id) reads out of bounds (confirmed with ASan: corpus/C01/...cc)."""
-    if not int(log.scalars.get("postcut", 0)):
-        return None
-    pdgs = {p["pdg"] for p in log.particles.values()}
-    if {22, 11, -11} <= pdgs:
-        return None
-    for s in log.steps:
-        if log.is_model(s.act) and s.st[1] == "a" and s.st[4] == "a" and not s.secs \
-                and s.dep > s.depa and log.cuts.get((max(s.mat, 0), 1), 1.0) == 0.0:
-            return s
-    return None
+def asan_cutoff_probe():
+    """Regression replay corpus/C01/cutoff_apply_cleared_secondary.cc under AddressSanitizer:
+    InteractionApplier's cut loop evaluates CutoffView::apply on secondaries the interactor has
+    already cleared; in a problem with apply_post_interaction but without positron (or gamma /
+    electron) the unrepaired code compared invalid == ids.positron (true) and indexed
+    id_to_index with the invalid id (heap-buffer-overflow READ).  Returns (status, text) with
+    status in ok | overflow | build-failed."""
+    src = os.path.join(vlib.CORPUS, "C01", "cutoff_apply_cleared_secondary.cc")
+    exe = os.path.join(vlib.HBUILD, "c01_cutprobe_san")
+    ok, log, _ = vlib.build_repo_libs(HARNESS["stepping"])
+    if not ok:
+        return "build-failed", log[-1500:]
+    deps = [src] + [os.path.join(vlib.REPO, "src/celeritas/phys", f)
+                    for f in ("CutoffView.hh", "CutoffParams.hh", "CutoffData.hh", "Secondary.hh")]
+    os.makedirs(vlib.HBUILD, exist_ok=True)
+    with vlib.Lock("harness_c01_cutprobe_san"):
+        stale = (not os.path.exists(exe)
+                 or any(os.path.getmtime(d) > os.path.getmtime(exe) for d in deps
+                        if os.path.exists(d)))
+        if stale:
+            inc, cxx, ld = vlib.harness_flags(HARNESS["stepping"], san=False)
+            rc, out = vlib.sh(["g++"] + cxx + ["-g", "-fsanitize=address"] + inc
+                              + [src, "-o", exe] + ld, timeout=900)
+            if rc != 0:
+                return "build-failed", out[-1500:]
+    rc, out = vlib.sh([exe], env={"ASAN_OPTIONS": "detect_leaks=0"}, timeout=120)
+    if "AddressSanitizer" in out:
+        return "overflow", out[:1800]
+    if rc != 0 or "apply(invalid)=0" not in out:
+        return "overflow", "unexpected result: rc=%d %s" % (rc, out[:600])
+    return "ok", out[:300]
 
 
 # --------------------------------------------------------------------------- main
@@ -318,7 +335,24 @@ def run(ctx):
                              "explanation": "harness build failed"})
         return LEVEL
     model = vlib.model_exe("C01")
-    n_runs = 26 if quick else 160
+    probe, ptext = asan_cutoff_probe()
+    ctx.coverage["asan_cutoff_probe"] = probe
+    if probe == "overflow":
+        ctx.violation("cutoff-apply-cleared-secondary",
+                      "InteractionApplier's cut loop calls CutoffView::apply on a cleared "
+                      "Secondary{}; in a problem with apply_post_interaction but without positron "
+                      "(or gamma/electron) `invalid == ids.positron` holds and energy(invalid id) "
+                      "indexes id_to_index out of bounds (CutoffView::get: heap-buffer-overflow "
+                      "under ASan) — the deposited energy of that step depends on unrelated heap "
+                      "contents",
+                      {"asan_replay": "corpus/C01/cutoff_apply_cleared_secondary.cc",
+                       "asan_output": ptext,
+                       "script": ["problem simple", "slots 8", "postcut 1", "cut gamma 0",
+                                  "cut electron 0", "primary gamma 0.003 0 0 0 1 0 0 0 20", "run"]})
+    elif probe == "build-failed":
+        broken.append("ASan regression replay corpus/C01/cutoff_apply_cleared_secondary.cc does "
+                      "not build: " + ptext[-200:])
+    n_runs = 20 if quick else 140
     stats = {"runs": 0, "steps": 0, "tracks": 0, "events": 0, "replayed": 0, "skipped": {},
              "verdicts": {}, "mismatch": 0, "oracle_fail": 0, "branches": {}, "configs": []}
     seen_keys = set()
@@ -356,19 +390,6 @@ def run(ctx):
             ctx.violation(key, "real Stepper: energy ledger violated (%s), residual %r > %r"
                           % (kind, d.get("residual"), d.get("tolerance")),
                           {"harness": "harness/stepping.cc", "script": lines, "detail": d})
-        s_bad = cleared_secondary_finding(log, problem, kw)
-        if s_bad is not None:
-            ctx.violation("cutoff-apply-cleared-secondary",
-                          "InteractionApplier calls CutoffView::apply on a cleared Secondary{}; in a "
-                          "problem with apply_post_interaction but without positron (or gamma/"
-                          "electron) `invalid == ids.positron` holds and energy(invalid id) indexes "
-                          "id_to_index out of bounds (CutoffView.hh get(): heap-buffer-overflow "
-                          "under ASan) — the deposited energy of that step depends on unrelated "
-                          "heap contents",
-                          {"harness": "harness/stepping.cc", "script": lines,
-                           "asan_replay": "corpus/C01/cutoff_apply_cleared_secondary.cc",
-                           "step": {"iter": s_bad.it, "slot": s_bad.slot, "track": s_bad.trk,
-                                    "action": log.label(s_bad.act)}})
         # ---- (a) model reproduces every replayable step bit-for-bit
         if ps["model_ok"]:
             ops, exps, refs = [], [], []
